@@ -47,6 +47,8 @@ def gen_case(rng, gpg=None, stratum=None):
             pos += nk
         ks = ks or [U[0]]
         t = rng.randint(1, len(ks))
+        if rng.random() < 0.08:
+            t = len(ks) + 1  # legal "draft" shape: can never be met
         rolekeys[n] = (ks, t)
         dels[n] = gmd.delegation(ks, t)
     ttype = rng.choice(["root", "key_mgr"])
@@ -81,6 +83,22 @@ def gen_case(rng, gpg=None, stratum=None):
         if rng.random() < 0.5:
             own["pkg_mgr"] = gmd.delegation(attackers[2:3], 1)
         usigned = gmd.delegating(utype, own, version=rng.randint(1, 5))
+        shape = rng.choice(["plain", "plain", "expired_before_timestamp", "expiration_equals_timestamp", "no_timestamp", "big_version",
+                            "huge_version", "extra_fields", "far_future"])
+        if shape == "expired_before_timestamp":
+            usigned["timestamp"], usigned["expiration"] = "2030-06-01T00:00:00Z", "2021-01-01T00:00:00Z"
+        elif shape == "expiration_equals_timestamp":
+            usigned["timestamp"] = usigned["expiration"] = "2025-02-28T23:59:59Z"
+        elif shape == "no_timestamp":
+            usigned.pop("timestamp")
+        elif shape == "big_version":
+            usigned["version"] = 2**64
+        elif shape == "huge_version":
+            usigned["version"] = rng.choice([2**1024, 10**400])
+        elif shape == "extra_fields":
+            usigned["extra"] = [None, {"x": 1.5}]
+        elif shape == "far_future":
+            usigned["timestamp"], usigned["expiration"] = "9998-01-01T00:00:00Z", "9999-12-31T23:59:59Z"
     else:
         usigned = jsonvals.rand_payload(rng)
         if rng.random() < 0.3:
@@ -103,7 +121,7 @@ def gen_case(rng, gpg=None, stratum=None):
     others = [n for n in names if n != role]
     if stratum in ("named", "named_junk", "type_confusion", "unknown_role"):
         if ks:
-            sign(rng.sample(ks, rng.randint(t, len(ks))))
+            sign(rng.sample(ks, rng.randint(min(t, len(ks)), len(ks))))
         else:
             # unknown role: sign with every key the trusted side knows
             for n in names:
@@ -112,16 +130,16 @@ def gen_case(rng, gpg=None, stratum=None):
         o = rng.choice(others)
         oks, ot = rolekeys[o]
         sign([k for k in oks if k.hex not in {x.hex for x in ks}])
-        sign(rng.sample(ks, t - 1))
+        sign(rng.sample(ks, min(len(ks), t - 1)))
     elif stratum == "untrusted_own":
         sign(attackers)
-        sign(rng.sample(ks, t - 1))
+        sign(rng.sample(ks, min(len(ks), t - 1)))
     elif stratum == "union":
         for n in others:
             sign([k for k in rolekeys[n][0] if k.hex not in {x.hex for x in ks}])
-        sign(rng.sample(ks, t - 1))
+        sign(rng.sample(ks, min(len(ks), t - 1)))
     elif stratum == "below":
-        sign(rng.sample(ks, t - 1))
+        sign(rng.sample(ks, min(len(ks), t - 1)))
         rest = [k for k in ks if k.hex not in untrusted["signatures"]]
         if rest:
             sign(rest[:1], rng.choice(gentries.invalid_states(gpg)))
